@@ -44,3 +44,12 @@ package rfc4757
 //@ func crypto/rfc4757.VerifyIntegrity(key, pt, data, e) (ok)
 //@   pure
 //@   trusted_frame returned slices are not tracked as fresh; in-place append into spare capacity cannot be excluded
+
+// RFC 4757 2 (property C08): the key is the MD4 digest of the UTF-16LE encoding of the password.
+//@ func crypto/rfc4757.StringToKey(secret) (r, err)
+//@   pure
+//@   trusted_frame returned slices are not tracked as fresh
+//@   seq_extensionality
+//@   ensures err == nil ==> bytes(r) == hashf(fid.golang.org.x.crypto.md4.New, utf16le(bytes(secret)))
+//@   loop 1 invariant -1 <= rangeindex && rangeindex < len(u) && len(b) == 2 * len(u)
+//@   loop 1 invariant forall j int :: 0 <= j && j < 2 * (rangeindex + 1) ==> b[j] == ite(j % 2 == 0, byte(u[j / 2]), byte(u[j / 2] >> 8))
